@@ -14,13 +14,14 @@ RULE = ("generated project trees of 2-8 files in nested directories; import / in
         "and library files; paths spelled plain, ./, dir/../, redundant, up-and-down, absolute; random DAGs (diamonds, chains, one file under "
         "several spellings) and graphs with one back edge (3 forms x spellings, cycle length 1-3); unreadable / missing / broken import "
         "targets with a healthy decoy at the cwd-relative path; every world built from 3 working directories (project root, nested project "
-        "directory, decoy directory) with the entry named relatively or absolutely. A case = one world; distinct = distinct (sorted set of "
-        "(position, kind, spelling class) of all sites, graph shape class, back-edge form/spelling/length, fault kind); non-trivial = has a "
-        "non-top-level position, a re-spelled path, a multiply imported file or a back edge")
+        "directory, decoy directory) with the entry named relatively or absolutely. A case = one import/include site in its situation (plus one per back edge, "
+        "fault and fail-message site); distinct = distinct (position, kind, spelling, entry-or-library file, target imported once or several "
+        "times) resp. (back-edge form, spelling, cycle length, entry on the cycle?) resp. (fault kind, positions importing the broken file); "
+        "non-trivial = a non-top-level position, a re-spelled path, a multiply imported target, a back edge, a fault or a fail-message site")
 
 FAULT_KINDS = ["missing", "dir", "nonutf8", "syntax"]
 TIERS = {
-    "quick": {"runs": 700, "wall_cap": 210},
+    "quick": {"runs": 1600, "wall_cap": 210},
     "thorough": {"runs": 14000, "wall_cap": 3300, "reexecute": 100},
 }
 
@@ -443,9 +444,17 @@ def execute(world, sb, res):
             res.probe("cycle_len_%d" % cyc_len)
         if be["spelling"] not in ("plain",):
             res.probe("back_edge_respelled")
-    nontrivial = bool(be) or bool(multi) or any(p != "top_let" or sp != "plain" for p, _, sp in sitekey)
-    res.key([sorted(sitekey), "diamond" if multi else "tree", [be["form"], be["spelling"], cyc_len] if be else None,
-             fault["kind"] if fault else None, bool(world["fail_site"])], nontrivial)
+    for i, f in enumerate(files):
+        for s in f["sites"]:
+            multi_t = s["kind"] == "import" and s["target"] in multi
+            res.key(["site", s["pos"], s["kind"], s["spelling"], "entry" if i == 0 else "lib", "multiply-imported" if multi_t else "single"],
+                    s["pos"] != "top_let" or s["spelling"] != "plain" or multi_t)
+    if be:
+        res.key(["back_edge", be["form"], be["spelling"], cyc_len, "entry-on-cycle" if be["to"] == 0 else "libs-only"], True)
+    if fault:
+        res.key(["fault", fault["kind"], sorted(set(s["pos"] for f in files for s in f["sites"] if s["kind"] == "import" and s["target"] == fault["target"]))], True)
+    if world["fail_site"]:
+        res.key(["fail_msg", world["fail_site"]["spelling"], bool(world["fail_site"].get("fmt"))], True)
 
     # ---- builds from three working directories -----------------------------------------------
     nested = next((d for d in world["dirs"] if d and d != entry_dir), None)
